@@ -207,7 +207,7 @@ class RemoteWorker(Worker, metaclass=RemoteWorkerMeta):
 
                 if not result:
                     if not self._remote_dead:
-                        send_msg(self._ctrl_sock, None, comment='ctrl: release')
+                        self._send_release()
                     logger.details('Closing frontend-side control socket')
                     self._ctrl_sock.close()
                     self._remote_dead = True
@@ -264,7 +264,7 @@ class RemoteWorker(Worker, metaclass=RemoteWorkerMeta):
                     return False
 
                 if not self._remote_dead:
-                    send_msg(self._ctrl_sock, None, 'ctrl: release')
+                    self._send_release()
                 logger.debug('Closing frontend-side control socket')
                 self._ctrl_sock.close()
                 self._remote_dead = True
@@ -354,7 +354,7 @@ class RemoteWorker(Worker, metaclass=RemoteWorkerMeta):
                     return False
 
                 if not self._remote_dead:
-                    send_msg(self._ctrl_sock, None, comment='ctrl: release')
+                    self._send_release()
                 logger.debug('Closing frontend-side control socket')
                 self._ctrl_sock.close()
                 self._remote_dead = True
@@ -367,6 +367,14 @@ class RemoteWorker(Worker, metaclass=RemoteWorkerMeta):
             if not alive:
                 self._dead = True
             return not alive
+
+    # Parent-side: tell the remote control thread that it is not needed any more
+    def _send_release(self):
+        try:
+            send_msg(self._ctrl_sock, None, comment='ctrl: release')
+        except ConnectionClosedError:
+            # the connection has failed since the last answer: the remote control thread is gone (or unreachable) anyway
+            pass
 
     def _get_result(self):
         return self._result
